@@ -2,8 +2,9 @@
 # usage: try-mutant.sh <patch.diff> <check id>...   — applies the patch to /repo, runs the checks (quick), always undoes it.
 P=$1; shift
 cd /repo && git apply "$P" || { echo "APPLY FAILED $P"; exit 2; }
+# Evidence written while the tree was changed is discarded (the committed evidence comes from clean runs only).
 # Binaries built from the changed tree must not survive it (a stale .bin/vh-race once produced a spurious report).
-trap 'cd /repo && git checkout -- . && git clean -fdq; rm -f /verif/.bin/vh /verif/.bin/vh-race /verif/.bin/dirk /verif/.bin/dirk-race' EXIT
+trap 'cd /repo && git checkout -- . && git clean -fdq; rm -f /verif/.bin/vh /verif/.bin/vh-race /verif/.bin/dirk /verif/.bin/dirk-race; git -C /verif checkout -q -- evidence' EXIT
 for chk in "$@"; do
   cd /verif && out=$(./check $chk quick 2>&1); rc=$?
   echo "$(basename $(dirname $P)) vs $chk: rc=$rc $(echo "$out" | grep -c '^VIOLATION') violations; $(echo "$out" | grep 'detail:' | head -1 | cut -c1-230)"
